@@ -141,7 +141,43 @@ def run_c13(ctx):
             ctx.traces_validated += 1
             if what != "valid":
                 ctx.nontriv("v:" + rt.fnv64(line.encode()))
+    verifier_sequences(ctx)
     proof_verdict(ctx)
+
+
+def verifier_sequences(ctx):
+    """ONE verifier object asked several times: after any updates and any earlier verify calls, verify(sig)
+    answers what a direct Ed25519 verification of (key, everything fed so far, sig) answers — the object
+    remembers the data, never an earlier answer"""
+    r = ctx.rng
+    seqs = []
+    for k in range(40 if not ctx.thorough else 400):
+        seed = rnd(r, 32)
+        pk = ed25519.secret_to_public(seed)
+        m1, m2 = rnd(r, r.choice([0, 1, 32, 100, 1500])), rnd(r, r.choice([1, 8, 64, 1024]))
+        s1, s12 = ed25519.sign(seed, m1), ed25519.sign(seed, m1 + m2)
+        shapes = [["u:" + rt.hx(m1), "v:" + rt.hx(s1), "u:" + rt.hx(m2), "v:" + rt.hx(s1), "v:" + rt.hx(s12)],       # accept, then the same signature over more data
+                  ["u:" + rt.hx(m1), "v:" + rt.hx(s12), "u:" + rt.hx(m2), "v:" + rt.hx(s12), "v:" + rt.hx(s1)],     # reject, then the same signature becomes right
+                  ["v:" + rt.hx(s1), "u:" + rt.hx(m1), "v:" + rt.hx(s1), "v:" + rt.hx(s1)],
+                  ["u:" + rt.hx(m1), "v:" + rt.hx(s1), "v:" + rt.hx(s12), "v:" + rt.hx(s1), "u:" + rt.hx(m2), "v:" + rt.hx(s12), "v:" + rt.hx(s1)]]
+        seqs.append((pk, shapes[k % len(shapes)]))
+    lines = ["verifyseq %s %s" % (rt.hx(pk), ",".join(ops)) for pk, ops in seqs]
+    impl = vlib.run_impl(lines)
+    ctx.evaluations += len(lines)
+    for (pk, ops), li, line in zip(seqs, impl, lines):
+        rep = {"cmd": "verifyseq", "line": line[:8000], "impl": li}
+        data, want = b"", []
+        for o in ops:
+            if o.startswith("u:"):
+                data += bytes.fromhex(o[2:]) if o[2:] != "-" else b""
+            else:
+                want.append("1" if ed25519.verify(pk, data, bytes.fromhex(o[2:])) else "0")
+        ctx.count("verifier_sequences")
+        if li != "OK " + ",".join(want):
+            ctx.violation("property", "one verifier object asked %d times answered %s; direct Ed25519 verification of what had been fed each time answers %s" % (len(want), li, ",".join(want)), rep)
+        else:
+            ctx.traces_validated += 1
+            ctx.nontriv("vseq:" + rt.fnv64(line.encode()))
 
 
 def replay(ctx, rep):
